@@ -1,7 +1,57 @@
+(* C12 - the expression parser is total, and every failure is a SyntaxError whose markers lie
+   inside the caller's own string.
+   The parser model (Model/Parse.v) is a total Gallina function: termination on every string is
+   what Coq's guard checker accepted when the model was defined.  The model distinguishes three
+   outcomes: [Ok tree], [Err site positions] (a SyntaxError raised at source line [site] with
+   caret positions [positions]) and [Internal site] (an assert / internal exception of the source
+   at line [site]).  The theorems say that [Internal] is unreachable and that all reported
+   positions index into the text - for every string over every alphabet, with no length bound.
+   The tie of the model to /repo is the differential check of harness/c12.py (same strings through
+   einx's parser and through the extracted model, result class / site / positions / tree compared)
+   and the regenerated literal tables below. *)
 From Coq Require Import List NArith ZArith.
-From EinxV Require Import Model.Parse Proofs.ParseGen.
+From EinxV Require Import Model.Parse Proofs.ParseGen Proofs.ParseProofs.
 Import ListNotations.
 
 Theorem C12_tables_tied : map lit_text nary_ops = Gen.GenParseTables.gen_nary_ops.
 Proof. exact nary_ops_gen. Qed.
 Print Assumptions C12_tables_tied.
+
+Theorem C12_parse_op_total_and_markers_in_text :
+  forall text : list N,
+    match parse_op text with
+    | Ok _ => True
+    | Err _ pos => Forall (fun p => (0 <= p < Z.of_nat (length text))%Z) pos
+    | Internal _ => False
+    end.
+Proof. exact parse_op_good. Qed.
+Print Assumptions C12_parse_op_total_and_markers_in_text.
+
+Theorem C12_parse_args_total_and_markers_in_text :
+  forall text : list N,
+    match parse_args text with
+    | Ok _ => True
+    | Err _ pos => Forall (fun p => (0 <= p < Z.of_nat (length text))%Z) pos
+    | Internal _ => False
+    end.
+Proof. exact parse_args_good. Qed.
+Print Assumptions C12_parse_args_total_and_markers_in_text.
+
+Theorem C12_parse_arg_total_and_markers_in_text :
+  forall text : list N,
+    match parse_arg text with
+    | Ok _ => True
+    | Err _ pos => Forall (fun p => (0 <= p < Z.of_nat (length text))%Z) pos
+    | Internal _ => False
+    end.
+Proof. exact parse_arg_good. Qed.
+Print Assumptions C12_parse_arg_total_and_markers_in_text.
+
+(* non-vacuity: both non-trivial outcomes occur.  "a (b + c) -> c" parses; "a ) b" is rejected
+   with the marker on the stray parenthesis (position 2). *)
+Example C12_accepts_somewhere :
+  match parse_op [97; 32; 40; 98; 32; 43; 32; 99; 41; 32; 45; 62; 32; 99]%N with Ok _ => True | _ => False end.
+Proof. vm_compute. exact I. Qed.
+Example C12_rejects_somewhere :
+  match parse_op [97; 32; 41; 32; 98]%N with Err _ pos => pos = [2%Z] | _ => False end.
+Proof. vm_compute. reflexivity. Qed.
